@@ -578,6 +578,92 @@ async fn scenario(name: &str) -> Result<(), String> {
                 ));
             }
         }
+        "cut_removes_whole_file_then_restart" => {
+            // C03 across files (s03_3): a real rollover, then a conflict truncation whose cut lies below the start of the new current file (the file
+            // goes as a whole), re-appends across the old file boundary, then a restart: the restarted node must show exactly the same log
+            let node = boot(d2.path()).await;
+            let mk = |i: u64, term: u64| Entry { term, index: i, payload: EntryPayload::Normal(EntryNormal { data: ClientRequest::ConfigRemove { key: "k".to_string() } }) };
+            let files = |n: &Node| {
+                let idx = n.index.clone();
+                async move {
+                    match idx.send(RaftIndexRequest::LoadIndexInfo).await {
+                        Ok(Ok(RaftIndexResponse::RaftIndexInfo { raft_index, .. })) => raft_index.logs.iter().map(|l| (l.id, l.start_index)).collect::<Vec<_>>(),
+                        _ => vec![],
+                    }
+                }
+            };
+            let mut next: u64 = 1;
+            let mut boundary = 0u64;
+            while next < 270_000 {
+                let batch: Vec<Entry<ClientRequest>> = (next..next + 1000).map(|i| mk(i, 1)).collect();
+                node.store.replicate_to_log(&batch).await.map_err(|e| format!("MODEL: bulk replicate at {}: {}", next, e))?;
+                next += 1000;
+                let f = files(&node).await;
+                if f.len() >= 2 {
+                    boundary = f[f.len() - 1].1;
+                    break;
+                }
+            }
+            if boundary == 0 {
+                return Err("MODEL: no rollover within 270 000 entries".to_string());
+            }
+            let k = boundary - 5;
+            node.store.delete_logs_from(k, None).await.map_err(|e| format!("delete_logs_from fails: {}", e))?;
+            tokio::time::sleep(Duration::from_millis(100)).await;
+            // ten re-appends of term 2: they cross the index at which the removed file began
+            for i in 0..10u64 {
+                node.store.append_entry_to_log(&mk(k + i, 2)).await.map_err(|e| format!("the append at {} (cut {}, old file boundary {}) is refused: {}", k + i, k, boundary, e))?;
+            }
+            tokio::time::sleep(Duration::from_millis(100)).await;
+            let want: Vec<(u64, u64)> = (k - 3..k).map(|i| (i, 1)).chain((k..k + 10).map(|i| (i, 2))).collect();
+            let live: Vec<(u64, u64)> = node.store.get_log_entries(k - 3, k + 20).await.map_err(|e| format!("query fails: {}", e))?.iter().map(|e| (e.index, e.term)).collect();
+            if live != want {
+                return Err(format!(
+                    "delete-from {} removed the whole current file (it began at {}), then 10 appends: the running node returns {:?} for [{}, {}), acknowledged and not removed: {:?}",
+                    k, boundary, live, k - 3, k + 20, want
+                ));
+            }
+            let live_state = node.store.get_initial_state().await.map_err(|e| format!("MODEL: {}", e))?;
+            let (_e, _a) = stop_and_copy(&node, d2.path(), d3.path()).await;
+            let restarted = boot(d3.path()).await;
+            let after: Vec<(u64, u64)> = restarted.store.get_log_entries(k - 3, k + 20).await.map_err(|e| format!("query after the restart fails: {}", e))?.iter().map(|e| (e.index, e.term)).collect();
+            let st = restarted.store.get_initial_state().await.map_err(|e| format!("get_initial_state fails after the restart: {}", e))?;
+            if after != want || st.last_log_index != live_state.last_log_index || st.last_log_term != live_state.last_log_term {
+                return Err(format!(
+                    "delete-from {} removed the whole current file (it began at {}), 10 appends, restart: the restarted node returns {:?} for [{}, {}) and reports last index / term {} / {}; before the restart {:?} and {} / {} (catalogue on disk: {:?})",
+                    k, boundary, after, k - 3, k + 20, st.last_log_index, st.last_log_term, want, live_state.last_log_index, live_state.last_log_term, files(&restarted).await
+                ));
+            }
+        }
+        "install_after_interrupted_longer_transfer" => {
+            // C08 (s08_3): a snapshot transfer is interrupted after more bytes than the next, complete transfer has (the receiver restarted in
+            // between: nothing was catalogued, the snapshot id - and the file - are the same); the installed file must be the leader's stream
+            let follower = boot(d2.path()).await;
+            {
+                let (_id, mut file) = follower.store.create_snapshot().await.map_err(|e| format!("MODEL: create_snapshot: {}", e))?;
+                let mut longer = bytes.clone();
+                longer.extend(std::iter::repeat(0x2au8).take(3000));
+                file.write_all(&longer).await.unwrap();
+                file.flush().await.unwrap();
+            }
+            let (id, mut file) = follower.store.create_snapshot().await.map_err(|e| format!("MODEL: create_snapshot (second transfer): {}", e))?;
+            file.write_all(&bytes).await.unwrap();
+            file.flush().await.unwrap();
+            follower
+                .store
+                .finalize_snapshot_installation(s_index, s_term, None, id.clone(), file)
+                .await
+                .map_err(|e| format!("finalize_snapshot_installation fails: {}", e))?;
+            tokio::time::sleep(Duration::from_millis(200)).await;
+            let path = d2.path().join(format!("snapshot_{}", id));
+            let on_disk = std::fs::read(&path).map_err(|e| format!("MODEL: installed snapshot file {:?}: {}", path, e))?;
+            if on_disk != bytes {
+                return Err(format!(
+                    "a transfer of {} bytes was interrupted (receiver restarted), the next transfer of the same snapshot id has {} bytes: the installed snapshot file has {} bytes - the tail of the interrupted transfer is still in it",
+                    bytes.len() + 3000, bytes.len(), on_disk.len()
+                ));
+            }
+        }
         "three_paths_same_state" => {
             // C07: the same committed requests through (a) the leader's apply path (done by `leader` above: entries 1..=3),
             // (b) the follower's batch replication path, (c) start-up replay of the log on a restarted node
